@@ -338,3 +338,68 @@ HARNESSES = [
              'carbon.protocols:MetricReceiver.pauseReceiving', 'carbon.protocols:MetricReceiver.resumeReceiving']),
   H('C09_wiring', quick=dict(timeout=60), encodes=['carbon.service:setup*Processor (source check, not solver-decided; an assumption of the other harnesses)']),
 ]
+
+
+# ---- cache side, interleavings around the fullness checks ---------------------------------------------------------------
+from vp_lib import racelab as R  # noqa: E402
+
+
+def _cache_race_setup(b0, b2, mi, ti, v, p1, n, p2):
+  stores = [(K.METRICS[mi], K.STAMPS[ti], v)]
+  plan = [('W', p1), ('R', n)] + ([('W', p2)] if p2 else [])
+  return [b0, False, b2, False], stores, plan
+
+
+def _cache_race_verdict(out):
+  if out.errors:
+    return None
+  # the writer went on until a drain returned nothing: if the cache is now below its low watermark the
+  # receivers must not be left paused (nothing further would ever resume them)
+  low = K.settings['CACHE_SIZE_LOW_WATERMARK']
+  idle = bool(out.drains) and out.drains[-1][0] is None
+  if idle and out.paused_at_end and out.cache.size < low:
+    return 'writer idle, cache size %r below the low watermark, receivers still paused' % (out.cache.size,)
+  return None
+
+
+def C09_cache_race(strat: int, b0: bool, b2: bool, maxsize: int, mi: int, ti: int, v: int, p1: int, n: int, p2: int) -> bool:
+  """
+  pre: 0 <= strat <= 6
+  pre: 1 <= maxsize <= 3
+  pre: int(b0) + int(b2) <= maxsize
+  pre: 0 <= mi <= 2 and 0 <= ti <= 2
+  pre: 0 <= p1 <= 40 and 0 <= n <= 14 and 0 <= p2 <= 10
+  post: __return__
+  """
+  bits, stores, plan = _cache_race_setup(b0, b2, mi, ti, v, p1, n, p2)
+  out = R.symbolic_run(strat, bits, 1, stores, 4, plan, maxsize=maxsize, flow=True, wire=True)
+  if [t for t in out.trace if t[0] == 'R'] and [t for t in out.trace if t[0] == 'W']:
+    cover('interleaved')
+  if out.paused_at_end:
+    cover('paused_at_end')
+  problem = _cache_race_verdict(out)
+  if problem:
+    raise AssertionError(problem)
+  return True
+
+
+def replay_cache_race(strat, b0, b2, maxsize, mi, ti, v, p1, n, p2):
+  bits, stores, plan = _cache_race_setup(b0, b2, mi, ti, v, p1, n, p2)
+  sym = R.symbolic_run(strat, bits, 1, stores, 4, plan, maxsize=maxsize, flow=True, wire=True)
+  out = R.real_run(strat, bits, 1, stores, 4, sym.trace, maxsize=maxsize, flow=True, wire=True)
+  if out.replay_problems and not out.errors:
+    raise RuntimeError('schedule could not be enforced on real threads: %r' % (out.replay_problems,))
+  return _cache_race_verdict(out) is None
+
+
+_RQ9 = [('s%d_%s' % (i, K.STRATEGY_NAMES[i] or 'none'), 'strat == %d' % i) for i in (0, 3, 6)]
+_RS9 = [('s%d_%s_m%d' % (i, n or 'none', m), 'strat == %d and mi == %d' % (i, m)) for i, n in enumerate(K.STRATEGY_NAMES) for m in range(3)]
+HARNESSES.append(
+  H('C09_cache_race', quick=dict(timeout=280, shards=_RQ9, extra_pre=['p2 == 0', 'maxsize == 1', 'mi == 2 and ti == 0', 'b0 and not b2']),
+    thorough=dict(timeout=1500, shards=_RS9),
+    covers=['interleaved'], replay='replay_cache_race', twin_pre=['strat == 0'],
+    encodes=['carbon.cache:_MetricCache.store (cacheFull under the lock)', 'carbon.cache:_MetricCache.pop', 'carbon.cache:_MetricCache._check_available_space',
+             'carbon.events cacheFull/cacheSpaceAvailable -> pause/resume chain'],
+    assumptions=_ASSUME + ['schedules: the writer (drains until the cache is empty) runs p1 statements, the receiver (one store that reaches MAX_CACHE_SIZE) runs n statements or until blocked, '
+                           '[thorough: writer p2 more], then both to completion; event handlers run atomically inside the statement that fires them',
+                           'counterexamples replayed on real OS threads running the real carbon.cache']))
